@@ -200,7 +200,7 @@ def _plan(tier):
 
 def run(rep: Report):
     tier = rep.tier
-    opts = {"prove_timeout_ms": 10000 if tier == "quick" else 30000, "fork_timeout_ms": 2000, "seed": rep.seed, "scenario_wall_s": 240 if tier == "quick" else 1200}
+    opts = {"prove_timeout_ms": 10000 if tier == "quick" else 30000, "fork_timeout_ms": 2000, "seed": rep.seed, "scenario_wall_s": 900 if tier == "quick" else 1200}
     run_plan(rep, _plan(tier), SCENARIOS, opts)
     rep.bounds = {"atoms": "2 (quick) / 3 (thorough)", "labels": "every labeling in [-1,1]^n (n<=2) / [-1,2]^n, plus a diatomic-molecule labeling", "trials": "1 (inductive step from an arbitrary validated state); 2-trial histories (any first outcome) for exchange+FixAtoms, displacement+FixAtoms+veto, cell+veto", "user check": "max_attempts=2, every verdict sequence", "drivers": "Canonical, HamiltonianCanonical, Isobaric, Isotension, GrandCanonical", "tables": "d, d*2, d+d, cell, shape, d+cell, e, e*2, e+e, e+d, h; pre-selected targets"}
     rep.assumptions = ["bit-for-bit = identical z3 terms (a restored array must be a copy of what was saved, not an arithmetic reconstruction)", "potential energy = uninterpreted function of the configuration; thermodynamic parameters concrete", "calculator contract: ase Calculator result caching (quick) / + stateless, neighbour-list models (thorough)"]
